@@ -271,8 +271,8 @@ def ledger_stream(ctx, cases, sanitize=False, tag="ledger"):
 CT_DRIVER = "c14_ctrait_driver.py"
 CT_CLAUSE = {1: "crash", 2: "index-out-of-table", 3: "copy-pickles-differently", 4: "behaviour-differs",
              5: "index-not-first-occurrence", 6: "reference-leak"}
-CT_MODES_C18 = ["state", "pickle0", "pickle1", "pickle2", "pickle3", "pickle4", "pickle5", "deepcopy", "clone",
-                "restate"]
+# (the 'restate' probe of the driver — __setstate__ by hand on an already initialised trait — is outside the
+#  property's quantifier and not part of the law; see design.d/C18.md "noted")
 
 
 def _mode_class(m):
@@ -648,22 +648,23 @@ def native_stream(ctx, cases, sanitize=False, tag="native"):
     ctx.obligation(label, not law, "%d histories, %d operations; %d failing steps" % (len(cases), nsteps, len(law)))
 
 # ----------------------------------------------------------------------------------------------
-# descriptor stream: the low-level CTrait constructors with malformed descriptors
+# definition stream: trait definitions built by traits' own constructors, exercised through the C core
 # ----------------------------------------------------------------------------------------------
 FUZZ_DRIVER = "c18_fuzz_driver.py"
-FUZZ_FAMILIES = ["validate%d" % k for k in range(0, 25)] + ["default", "property", "delegate", "kind", "attrs"]
+FUZZ_FAMILIES = ["library-a", "library-b", "library-c", "library-d"]      # four workers, disjoint seeds
 
 
 def descriptor_stream(ctx, sanitize=False):
-    """A FIXED corpus (seeds do not depend on --seed, so the outcome on a given tree is the same in every run):
-    per family, descriptors are tried in a subprocess; after a crash the family is re-run without the crashing
-    head (first component) so that every crashing head of the family is reported once.  Families are independent
-    and run concurrently; results are reported in family order."""
+    """Random trait definitions built by the constructors of traits.api (what TraitType.as_ctrait can produce; NOT
+    hand-built descriptors for the low-level CTrait constructors, which are outside the property's quantifier) are
+    exercised in subprocesses.  A FIXED corpus (seeds do not depend on --seed).  After a crash the worker is re-run
+    without definitions of the crashing handler class, so that every crashing class is reported once."""
     import concurrent.futures
-    seeds, n = ((1,), 250) if ctx.tier == "quick" else ((1, 2, 3), 300)
+    base_seeds, n = ((1,), 600) if ctx.tier == "quick" else ((1, 2, 3, 4), 1500)
     ctx.build_impl(sanitize)            # build once, before the worker threads need it
 
     def one_family(fam):
+        seeds = [10 * s + FUZZ_FAMILIES.index(fam) for s in base_seeds]
         prog = os.path.join(ctx.scratch, "fuzz_%s%s.txt" % (fam, "_asan" if sanitize else ""))
         skip, crashes, tried, accepted, harness = [], [], 0, 0, None
         for _round in range(8):
@@ -683,10 +684,7 @@ def descriptor_stream(ctx, sanitize=False):
                     head, desc = lines[0], lines[1]
                 except Exception:
                     head, desc = "?", "?"
-                try:
-                    head_v = int(head)
-                except ValueError:
-                    head_v = head
+                head_v = head
                 crashes.append(dict(fam=fam, head=head, desc=desc, rc=rc, err=err, seed=seed, skip=list(skip)))
                 skip.append(head_v)
                 crashed = True
@@ -706,20 +704,20 @@ def descriptor_stream(ctx, sanitize=False):
             return
         for c in cr:
             crashes.append((c["fam"], c["head"], c["desc"]))
-            ctx.fail("crash/descriptor/%s/%s" % (c["fam"], c["head"]),
-                     "the interpreter died (rc=%s%s) using a descriptor that the C constructor ACCEPTED: family %s, "
-                     "descriptor %s :: %s" % (c["rc"], ", sanitised build" if sanitize else "", c["fam"], c["desc"][:200],
+            ctx.fail("crash/definition/%s" % c["head"],
+                     "the interpreter died (rc=%s%s) exercising a trait definition built by traits' own constructors "
+                     "(%s): %s :: %s" % (c["rc"], ", sanitised build" if sanitize else "", c["fam"], c["desc"][:300],
                                               c["err"][-300:].replace("\n", " | ")),
                      dict(kind="descriptor", family=c["fam"], seed=c["seed"], n=n, skip=c["skip"], descriptor=c["desc"],
                           sanitized=bool(sanitize), returncode=c["rc"], stderr_tail=c["err"][-2000:]))
-    unknown = [c for c in crashes if not any(e.get("status") == "known" and e.get("key") == "crash/descriptor/%s/%s" % (
-        c[0], c[1]) for e in ctx.known)]
-    ctx.obligation("no crash using descriptors accepted by the low-level CTrait constructors (%s build)" % (
+    unknown = [c for c in crashes if not any(e.get("status") == "known" and e.get("key") == "crash/definition/%s" % c[1]
+                                             for e in ctx.known)]
+    ctx.obligation("no crash exercising trait definitions built by traits' own constructors (%s build)" % (
         "clang ASan+UBSan" if sanitize else "gcc"), not unknown,
-        "%d descriptors tried, %d accepted and exercised; crashing heads: %s" % (
+        "%d definitions drawn, %d built and exercised; crashing handler classes: %s" % (
             tried, accepted, ", ".join("%s/%s" % (c[0], c[1]) for c in crashes) or "none"))
-    ctx.count("descriptor-tried%s" % ("(asan)" if sanitize else ""), tried)
-    ctx.count("descriptor-accepted%s" % ("(asan)" if sanitize else ""), accepted)
+    ctx.count("definition-drawn%s" % ("(asan)" if sanitize else ""), tried)
+    ctx.count("definition-exercised%s" % ("(asan)" if sanitize else ""), accepted)
     ctx.cov["evaluations"] += tried
 
 
@@ -767,7 +765,7 @@ def run(ctx):
                                                             progress=os.path.join(ctx.scratch, "fuzz_replay.txt")),
                                           sanitize=bool(rep.get("sanitized")))
             if rc != 0:
-                ctx.fail(rep_file.get("key") or "crash/descriptor/%s/replay" % rep["family"],
+                ctx.fail(rep_file.get("key") or "crash/definition/replay",
                          "replay: the interpreter died again (rc=%s) on descriptor %s" % (rc, rep["descriptor"]), rep)
         elif rep.get("kind") == "crash-program":
             crash_stream(ctx, [rep["program"]], sanitize=bool(rep.get("sanitized")), tag="replay")
@@ -789,7 +787,7 @@ def run(ctx):
     _timed(ctx, "ledger", ledger_stream, ctx, cases)
     # --- trait definition objects in a subprocess (F9 trigger: validated Property traits) --------
     have_gen = t3_data is not None and os.path.exists(os.path.join(ctx.scratch, "CTablesGen.vo"))
-    _timed(ctx, "ctrait", ctrait_stream, ctx, t3_data, have_gen, modes=CT_MODES_C18)
+    _timed(ctx, "ctrait", ctrait_stream, ctx, t3_data, have_gen)
     # --- crash stream -----------------------------------------------------------------------
     npr, nops = (24, 120) if ctx.tier == "quick" else (160, 250)
     programs = [dict(index=i, seed=rnd.randrange(1 << 30), n=nops) for i in range(npr)]
@@ -804,7 +802,7 @@ def run(ctx):
         crash_stream(ctx, programs, sanitize=True)
         descriptor_stream(ctx, sanitize=True)
         native_stream(ctx, ncases[:300], sanitize=True, tag="native_asan")
-        ctrait_stream(ctx, t3_data, have_gen, sanitize=True, modes=CT_MODES_C18)
+        ctrait_stream(ctx, t3_data, have_gen, sanitize=True)
         ledger_stream(ctx, cases[:len(corpus())] + cases[-2000:], sanitize=True, tag="ledger_asan")
     if not t3_ok:
         if not any(not v[2] for v in ctx.violations):
